@@ -771,6 +771,30 @@ def rule_R9z(text, log):
         text = text[:c['recv_start']] + after + text[end:]
 
 
+def rule_R9y(text, log):
+    """X.into_iter().map(|p| E).collect()   (X: a Vec consumed, p an identifier)  ==>
+       { let mut out__ = Vec::new(); let mut it__ = vec_into_iter(X); let mut more__ = true;
+         while more__ { match it__.next() { Some(p) => { out__.push(E); } None => { more__ = false; } } } out__ }
+    (std: IntoIter yields the items in order, moving them out; collect keeps the order)"""
+    while True:
+        m = mask(text)
+        hit = None
+        for c in find_closure_calls(text, 'map'):
+            mm = re.match(r'\s*\.\s*collect\s*\(\s*\)', m[c['close'] + 1:])
+            recv = text[c['recv_start']:c['dot']].strip()
+            mi = re.fullmatch(r'([\w.]+)\s*\.\s*into_iter\s*\(\s*\)', recv)
+            if mm and mi and re.fullmatch(IDENT, c['params']):
+                hit = (c, c['close'] + 1 + mm.end(), mi.group(1))
+                break
+        if not hit:
+            return text
+        c, end, x = hit
+        after = ('{ let mut out__ = Vec::new(); let mut it__ = vec_into_iter(%s); let mut more__ = true; while more__ { match it__.next() { Some(%s) => { out__.push(%s); } None => { more__ = false; } } } out__ }'
+                 % (x, c['params'], c['body']))
+        log.append(dict(rule='R9y', before=text[c['recv_start']:end][:200], after=after[:300]))
+        text = text[:c['recv_start']] + after + text[end:]
+
+
 def rule_R22(text, log):
     """match E { Some("a") => A, Some("b") => B, ..., _ => D }   (every pattern but the last a Some(string literal))  ==>
        { let m__ = E; if opt_str_is(&m__, "a") { A } else if opt_str_is(&m__, "b") { B } ... else { D } }
@@ -878,7 +902,7 @@ def rule_R4g(text, log):
         text = text[:s0] + after + text[bc + 1:]
 
 
-RULES = {'R22': rule_R22, 'R9z': rule_R9z, 'R4g': rule_R4g, 'R8i': rule_R8i, 'R9': rule_R9, 'R3c': rule_R3c, 'R19p': rule_R19p, 'R4e': rule_R4e, 'R4f': rule_R4f, 'R19': rule_R19, 'R9b': rule_R9b, 'R18': rule_R18, 'R4b': rule_R4b, 'R4c': rule_R4c, 'R4d': rule_R4d, 'R9c': rule_R9c, 'R16': rule_R16, 'R5': rule_R5, 'R15': rule_R15, 'R6bp': rule_R6bp,
+RULES = {'R9y': rule_R9y, 'R22': rule_R22, 'R9z': rule_R9z, 'R4g': rule_R4g, 'R8i': rule_R8i, 'R9': rule_R9, 'R3c': rule_R3c, 'R19p': rule_R19p, 'R4e': rule_R4e, 'R4f': rule_R4f, 'R19': rule_R19, 'R9b': rule_R9b, 'R18': rule_R18, 'R4b': rule_R4b, 'R4c': rule_R4c, 'R4d': rule_R4d, 'R9c': rule_R9c, 'R16': rule_R16, 'R5': rule_R5, 'R15': rule_R15, 'R6bp': rule_R6bp,
     'R1': rule_R1, 'R2': rule_R2, 'R3': rule_R3, 'R3b': rule_R3b, 'R4': rule_R4,
     'R6': rule_R6, 'R6b': rule_R6b, 'R6c': rule_R6c,
 }
